@@ -265,7 +265,32 @@ func Map(src execution.Node, idxs []int) execution.Node {
 	return nodes.NewMap(src, exprs)
 }
 func Unnest(src execution.Node, idx int) execution.Node { return nodes.NewUnnest(src, idx) }
-func Buffer(src execution.Node) execution.Node          { return nodes.NewEventTimeBuffer(src) }
+func Limit(src execution.Node, n int64) execution.Node {
+	return nodes.NewLimit(src, execution.NewConstant(octosql.NewInt(n)))
+}
+func Distinct(src execution.Node) execution.Node { return nodes.NewDistinct(src) }
+
+// OrderBy builds OrderSensitiveTransform: keys are columns, desc[i] selects the direction multiplier -1.
+func OrderBy(src execution.Node, cols []int, desc []bool, limit *int64, noRetractions bool) execution.Node {
+	mult := make([]int, len(cols))
+	for i := range cols {
+		mult[i] = 1
+		if desc[i] {
+			mult[i] = -1
+		}
+	}
+	var lim *execution.Expression
+	if limit != nil {
+		var e execution.Expression = execution.NewConstant(octosql.NewInt(*limit))
+		lim = &e
+	}
+	keys := make([]execution.Expression, len(cols))
+	for i, c := range cols {
+		keys[i] = execution.NewVariable(0, c)
+	}
+	return nodes.NewOrderSensitiveTransform(src, keys, mult, lim, noRetractions)
+}
+func Buffer(src execution.Node) execution.Node { return nodes.NewEventTimeBuffer(src) }
 
 // ---- a source for poll: emits snapshot k on its k-th run and fails after the last one ----
 type SnapshotSource struct {
